@@ -2,8 +2,17 @@
 import json, sys
 pid = sys.argv[1]
 n = int(sys.argv[2]) if len(sys.argv) > 2 else 2
+wave = sys.argv[3] if len(sys.argv) > 3 else ''
 p = [json.loads(l) for l in open('/verif/properties.jsonl') if json.loads(l)['id'] == pid][0]
-wt = '/tmp/seed_%s' % pid
+wt = '/tmp/seed%s_%s' % (wave, pid)
+EXTRA = ''
+if wave:
+    EXTRA = ('The suite is already known to be strong against single-site arithmetic slips that show on freshly built objects with\n'
+             'ordinary inputs.  So for BOTH changes choose defects that need one of: (i) a multi-step SEQUENCE of calls on live objects\n'
+             '(parameter updates between evaluations, re-compilation, write-then-reload, cache or buffer reuse, state left behind by an\n'
+             'earlier call or by an exception); (ii) an unusual-but-legal COMBINATION of two options or inputs; (iii) two cooperating sites\n'
+             'that each look fine alone; (iv) boundary values (first/last layer, exactly equal values, one-element or empty collections,\n'
+             'values exactly on a grid node or bin edge).\n')
 print('''You are testing how well a verification suite protects a Python code base.  The code base is TauREx 3
 (exoplanet atmospheric retrieval code).  You have your own scratch git worktree of it at {wt} (a detached checkout; work ONLY there;
 never touch /repo or /verif, never read anything under /verif).  Run Python with /venv/bin/python; to make it import YOUR worktree run
@@ -25,7 +34,7 @@ sites that each look fine alone ...) to the TauREx sources in your worktree, eac
   (b) the repository's existing test-suite still passes exactly as before: run `cd {wt} && /venv/bin/python -m pytest -q -p no:cacheprovider
       --timeout=900 tests/<relevant dirs>` on the unchanged worktree first to learn which tests pass there (several tests fail or
       error on the unchanged tree already - those do not count), then with your change; the set of passing tests must not shrink.
-Prefer changes that need something SPECIFIC to manifest - a particular input region, layer count, ordering, sequence of calls,
+%(extra)sPrefer changes that need something SPECIFIC to manifest - a particular input region, layer count, ordering, sequence of calls,
 unusual-but-legal argument, or a particular combination of options - rather than ones any ordinary run would expose at once.
 Do not just delete functionality, do not add `if input == X` special-casing on a magic value, and do not change test files or docs.
 Make the {n} changes independent (different mechanism / different place), each as its own patch against the unchanged worktree.
@@ -40,5 +49,7 @@ For each change k = 1..{n} deliver, in directory {wt}_out/ (create it):
                          configuration is needed for the violation to show...", "tests_run": "...the pytest command and its pass/fail
                          counts before and after...", "files": [...]}}
 Leave the worktree itself clean (git checkout -- .) when you finish.  Final message: a short list of the {n} changes and what each
-needs in order to manifest.'''.format(wt=wt, id=p['id'], title=p['title'], statement=p['statement'], q=p['quantifier']['text'],
+needs in order to manifest.
+NEVER use `git stash` (the stash is shared between all worktrees of the repository): to switch between the unchanged and the
+changed tree use `git diff > file; git checkout -- .; git apply file`.'''.replace('%(extra)s', EXTRA).format(wt=wt, id=p['id'], title=p['title'], statement=p['statement'], q=p['quantifier']['text'],
                                        files=', '.join(p['anchors']['files']), n=n))
